@@ -15,6 +15,11 @@ def contact(link_idx, prefix='c'):
       'dist': symarr(prefix + 'd', (nc,)), 'friction': symarr(prefix + 'mu', (nc, 5)),
       'elasticity': symarr(prefix + 'el', (nc,)), 'solref': symarr(prefix + 'sr', (nc, 2)),
       'solimp': symarr(prefix + 'si', (nc, 5)),
+      # the remaining mjx.Contact fields (a margin, the friction solref, bookkeeping ids): symbolic / concrete, so that a
+      # consumer reading them is interpreted rather than rejected
+      'includemargin': symarr(prefix + 'mg', (nc,)), 'solreffriction': symarr(prefix + 'srf', (nc, 2)),
+      'dim': np.full((nc,), 3), 'geom1': np.arange(nc), 'geom2': np.arange(nc) + nc,
+      'geom': np.stack([np.arange(nc), np.arange(nc) + nc], axis=1), 'efc_address': np.arange(nc) * 4,
       'link_idx': (np.array(link_idx[0]), np.array(link_idx[1]))})
 
 
